@@ -14,6 +14,7 @@ import (
 	"encoding/json"
 	"fmt"
 	"os"
+	"runtime"
 	"sort"
 	"strconv"
 	"strings"
@@ -45,6 +46,19 @@ func reportGated(c *vf.Ctx, r gatedResult) {
 		c.Count("gate_not_reached", 1)
 		c.Inconclusive("gated schedule " + r.Cfg.key() + ": " + r.Inconcl)
 		return
+	}
+	c.Count("gated_workers_class:"+workerClass(r.Cfg.Workers), 1)
+	if r.Cfg.Kind == "allbusy" && r.AllBusy {
+		c.Count("allbusy_at_shutdown:"+workerClass(r.Cfg.Workers), 1)
+		if r.Workers > 2*runtime.NumCPU() {
+			c.Count("allbusy_at_shutdown_workers_gt_2ncpu", 1)
+			if r.Cfg.Callback != "counter" {
+				c.Count("allbusy_at_shutdown_workers_gt_2ncpu_tasks_call_pool", 1)
+			}
+		}
+	}
+	if r.Cfg.Kind == "restart-nowait" || r.Cfg.Restart {
+		c.Count("restart_schedules:"+workerClass(r.Cfg.Workers), 1)
 	}
 	if r.Cfg.Point != "" {
 		c.Count("gated_windows_entered", 1)
@@ -93,6 +107,15 @@ func reportStress(c *vf.Ctx, r stressResult) {
 	c.Count("stress_runs", 1)
 	if r.Cfg.Race {
 		c.Count("stress_runs_race_build", 1)
+	}
+	for _, w := range r.Cfg.Workers {
+		c.Count("stress_pools_workers_class:"+workerClass(w), 1)
+	}
+	if r.AllBusyAtShutdown {
+		c.Count("stress_allbusy_at_shutdown:"+workerClass(r.Cfg.Workers[0]), 1)
+		if effWorkers(r.Cfg.Workers[0]) > 2*runtime.NumCPU() {
+			c.Count("stress_allbusy_at_shutdown_workers_gt_2ncpu", 1)
+		}
 	}
 	if r.Overlap {
 		c.Count("stress_runs_submit_overlapping_shutdown", 1)
@@ -367,7 +390,7 @@ func run(c *vf.Ctx) {
 	}
 
 	// ---- gated schedules
-	reps := c.Pick(1, 8)
+	reps := c.Pick(1, 4)
 	list := gatedList(c.Rand("gated"), c.Quick())
 	const chunk = 40
 	for rep := 0; rep < reps; rep++ {
@@ -502,6 +525,15 @@ func run(c *vf.Ctx) {
 
 	c.Require("evaluations", c.Pick(2000, 100000))
 	c.Require("gated_windows_entered", c.Pick(250, 5000))
+	c.Require("allbusy_at_shutdown_workers_gt_2ncpu", c.Pick(30, 100))
+	c.Require("allbusy_at_shutdown_workers_gt_2ncpu_tasks_call_pool", c.Pick(20, 80))
+	c.Require("allbusy_at_shutdown:2ncpu", 10)
+	c.Require("allbusy_at_shutdown:default", 10)
+	c.Require("allbusy_at_shutdown:1-4", 40)
+	c.Require("gated_workers_class:above-2ncpu", c.Pick(60, 300))
+	c.Require("restart_schedules:above-2ncpu", c.Pick(10, 60))
+	c.Require("stress_allbusy_at_shutdown_workers_gt_2ncpu", c.Pick(30, 1500))
+	c.Require("stress_pools_workers_class:above-2ncpu", c.Pick(200, 10000))
 	c.Require("window:"+ptAfterCheck, 50)
 	c.Require("window:"+ptBeforePush, 50)
 	c.Require("window:"+ptBeforeWait, 50)
